@@ -308,7 +308,9 @@ impl<const K: u8> From<&str> for PK<K> {
 }
 impl<const K: u8> From<bool> for PK<K> {
     fn from(n: bool) -> Self {
-        from_lit(n as i8)
+        // (a bool literal carries no position: the trailing tag keeps it out of the order observation)
+        log_push(format!("[\"from\",\"own\",{},\"bool\"]", n as i8));
+        PK { s: 3, f: 0, v: n as i8, g: G_FROM }
     }
 }
 impl<const K: u8> From<char> for PK<K> {
@@ -338,6 +340,7 @@ pub fn m_anyhash<T, H: Hasher>(_: &T, _: &mut H) {}
 
 /// a user expression (not a literal)
 pub fn pexpr<const K: u8>(n: i8) -> PK<K> {
+    log_push(format!("[\"expr\",\"own\",{}]", n));
     PK { s: 3, f: 0, v: n, g: G_EXPR }
 }
 
@@ -378,16 +381,32 @@ pub fn run_default<T: Case + Default, W: Write>(out: &mut Out<W>, new_fn: Option
     let r = catch_unwind(AssertUnwindSafe(|| T::default()));
     let log = log_take();
     let froms = log.iter().filter(|s| s.starts_with("[\"from\"")).count();
+    // the order in which the fields' initialisers ran, as 1-based field positions (Default::default() of the
+    // position-indexed probe logs its position; literals and expressions carry 10 + position)
+    let order: Vec<String> = log
+        .iter()
+        .filter_map(|s| {
+            let n: i32 = s.trim_end_matches(']').rsplit(',').next()?.parse().ok()?;
+            if s.starts_with("[\"default\"") {
+                Some(n.to_string())
+            } else if s.starts_with("[\"from\"") || s.starts_with("[\"expr\"") {
+                // int / str / float literals and expressions carry 10 + position, char literals the position itself
+                Some((if n >= 10 { n - 10 } else { n }).to_string())
+            } else {
+                None
+            }
+        })
+        .collect();
     let rn = new_fn.map(|f| catch_unwind(AssertUnwindSafe(f)));
     log_take();
     match (r, rn) {
         (Ok(r), None) => out.rec(&format!(
-            "\"ev\":\"op\",\"t\":{},\"op\":\"default\",\"res\":{},\"froms\":{},\"newres\":[]",
-            T::ID, r.finger(), froms
+            "\"ev\":\"op\",\"t\":{},\"op\":\"default\",\"res\":{},\"froms\":{},\"order\":[{}],\"newres\":[]",
+            T::ID, r.finger(), froms, order.join(",")
         )),
         (Ok(r), Some(Ok(n))) => out.rec(&format!(
-            "\"ev\":\"op\",\"t\":{},\"op\":\"default\",\"res\":{},\"froms\":{},\"newres\":{}",
-            T::ID, r.finger(), froms, n.finger()
+            "\"ev\":\"op\",\"t\":{},\"op\":\"default\",\"res\":{},\"froms\":{},\"order\":[{}],\"newres\":{}",
+            T::ID, r.finger(), froms, order.join(","), n.finger()
         )),
         _ => out.rec(&format!("\"ev\":\"op\",\"t\":{},\"op\":\"panic\",\"in\":\"default\"", T::ID)),
     }
